@@ -3,6 +3,9 @@ real pipeline (DESIGN.md 5/C20)."""
 
 from __future__ import annotations
 
+import ast
+
+from ..report import norm_text
 from . import _layout, _pipe
 
 # classification of rejection sites by the construct that raises (inventory; unclassified sites are listed in evidence)
@@ -168,7 +171,15 @@ def check(index, ctx):
             first = min(gw, key=lambda e: e["seq"])
             targets = sorted({a for e in gw for a in e["target"]})
             checks = [e for e in _pipe.evs(res, "expects_grad_check") if e["seq"] < first["seq"] and not (set(e["loops"]) & set(first["loops"])) and e.get("strength") == "full"]
-            weak = [e for e in _pipe.evs(res, "expects_grad_check") if e.get("strength") != "full"]
+            sc = [e for e in _pipe.evs(res, "short_circuit")]
+            for e in _pipe.evs(res, "expects_grad_check"):
+                hit = next((s_ for s_ in sc if s_["function"] == e["function"] and s_["loc"].rsplit(":", 1)[0] == e["loc"].rsplit(":", 1)[0]
+                            and abs(int(s_["loc"].rsplit(":", 1)[1]) - int(e["loc"].rsplit(":", 1)[1])) <= 2 and e["text"][:20] in s_["text"]), None)
+                if hit is not None and e.get("strength") == "full":
+                    e["strength"] = "first-only"
+                    ctx.violated("R3", f"{e['function'].split('.')[-1]}: the validator runs inside {hit.get('fn')}()", f"`{hit['text'][:90]}`: the validator returns None, so {hit.get('fn')}() stops after the "
+                                 "first element — only the first parameter (in iteration order) is validated up front; an offending one further on is rejected later, after other .grad fields were written", hit["loc"])
+            weak = [e for e in _pipe.evs(res, "expects_grad_check") if e.get("strength") not in ("full", "first-only")]
             for e in weak[:1]:
                 ctx.violated("R3", f"{e['validator'].split('.')[-1]}: validator does not test requires_grad and (is_leaf or retains_grad)",
                              "the up-front validator accepts tensors that cannot receive a .grad (e.g. a frozen leaf): they are rejected later, after other .grad fields were written", e["loc"])
@@ -221,6 +232,26 @@ def check(index, ctx):
                         (f"on path [{res.describe_path()[-110:]}] of {run.label} no test has established that `{a}` is non-empty when the first .grad write happens: with an empty `{a}` "
                          "the call is not rejected up front — it fails later (or not at all), after .grad fields were modified") if res is not None else "", "")
     chunk_validator_rule(index, ctx)
+    # R3 (which tensors the validation walks): not one representative per value of a key computed from the tensors — two parameters with the
+    # same key (views of one buffer, a frozen alias of a valid parameter) are different tensors, and only one of them would be validated
+    for q_ in ("torchjd.autojac.backward.backward", "torchjd.autojac.mtl_backward.mtl_backward"):
+        fi_ = index.find_function(q_)
+        if fi_ is None:
+            continue
+        tables = {}
+        for a_ in ast.walk(fi_.node):
+            if isinstance(a_, ast.Assign) and len(a_.targets) == 1 and isinstance(a_.targets[0], ast.Name) and isinstance(a_.value, ast.DictComp) and len(a_.value.generators) >= 1:
+                tv_ = a_.value.generators[-1].target
+                if isinstance(tv_, ast.Name) and isinstance(a_.value.value, ast.Name) and a_.value.value.id == tv_.id and not (isinstance(a_.value.key, ast.Name) and a_.value.key.id == tv_.id) \
+                        and any(isinstance(n_, ast.Name) and n_.id == tv_.id for n_ in ast.walk(a_.value.key)):
+                    tables[a_.targets[0].id] = a_
+        for l_ in ast.walk(fi_.node):
+            if isinstance(l_, ast.For) and isinstance(l_.iter, ast.Call) and isinstance(l_.iter.func, ast.Attribute) and l_.iter.func.attr == "values" and isinstance(l_.iter.func.value, ast.Name) \
+                    and l_.iter.func.value.id in tables and any(isinstance(c_, ast.Call) and norm_text(c_.func).split(".")[-1] in {v_.split(".")[-1] for v_ in P.validators} for c_ in ast.walk(l_)):
+                t_ = tables[l_.iter.func.value.id]
+                ctx.violated("R3", f"{fi_.short}: the up-front validation walks one tensor per `{norm_text(t_.value.key)[:40]}`",
+                             f"`{norm_text(t_)[:90]}` keeps one parameter per value of a key computed from it, and only those are validated: a parameter that cannot receive a .grad but shares its key "
+                             "with a valid one listed later (a view or a frozen alias of it) is not rejected up front — it fails after other .grad fields were written", fi_.loc(t_))
     ctx.extra["rejection_inventory"] = inventory
     ctx.floor("argument-rejection paths inspected", n_rej, 30)
     _pipe.common_evidence(ctx, index)
